@@ -1,10 +1,12 @@
 (* Proofs/ContainersRefine.v — forward simulation between the container model
    (Model/Containers.v) and the reference containers (Spec/Ordered.v), property C16.
 
-   abs drops the placeholder entries (`Item::None`).  For every call that does not meet a
-   placeholder in a revealing way (tsens = false) the model's answer equals the reference's
-   answer and abs commutes with the step; lifted to all histories by induction over the
-   list of calls. *)
+   abs drops the placeholder entries (`Item::None`).  Every write / entry call first drops the
+   placeholder stored under its key (`purge`, Model/Containers.v `prep`: the repair of
+   C16-placeholder-residue), which changes neither abs nor the invariant; on the purged state
+   the call meets no placeholder (`tsens' = false`), the model's answer equals the reference's
+   answer and abs commutes with the step (`tbody_sim`); lifted to ALL histories by induction
+   over the list of calls. *)
 From TV Require Import Base.Prelude Spec.Ordered Model.Containers Proofs.ContainersOrder.
 Require Import Lia ZifyBool ZifyN ZifyNat.
 From Coq Require Import Permutation.
@@ -317,21 +319,51 @@ Proof.
       apply bytes_eqb_eq in E2. subst. rewrite bytes_eqb_sym, E1. reflexivity.
 Qed.
 
-Lemma abs_extend (n : pay -> pay) l c :
-  NoDup (keys c) -> existsb (fun kv => ph (fst kv) c) l = false ->
-  abs (im_extend (map (fun kv => (fst kv, IReal (n (snd kv)))) l) c)
+(* -- dropping a placeholder -- *)
+Lemma im_get_remove_same {V} k (c : list (bytes * V)) : NoDup (keys c) -> im_get k (im_shift_remove k c) = None.
+Proof.
+  induction c as [|[k' v] c IH]; simpl; intro H; [reflexivity|].
+  inversion H as [|? ? Hn Hc]; subst.
+  destruct (bytes_eqb k' k) eqn:E.
+  - apply bytes_eqb_eq in E. subst. apply im_get_notin. exact Hn.
+  - simpl. rewrite E. auto.
+Qed.
+
+Lemma abs_remove_ph k c : ph k c = true -> abs (im_shift_remove k c) = abs c.
+Proof.
+  unfold ph. induction c as [|[k' i] c IH]; simpl; [discriminate|].
+  destruct (bytes_eqb k' k).
+  - destruct i as [|q]; [intros _; reflexivity|discriminate].
+  - intro H. destruct i as [|q]; [rewrite ?abs_cons_none|rewrite ?abs_cons_real; f_equal]; auto.
+Qed.
+
+Lemma abs_purge k c : abs (purge k c) = abs c.
+Proof. unfold purge. destruct (ph k c) eqn:E; [apply abs_remove_ph; exact E|reflexivity]. Qed.
+
+Lemma NoDup_purge k (c : imap item) : NoDup (keys c) -> NoDup (keys (purge k c)).
+Proof. unfold purge. destruct (ph k c); [apply NoDup_remove|auto]. Qed.
+
+Lemma ph_purge k c : NoDup (keys c) -> ph k (purge k c) = false.
+Proof.
+  intro H. unfold purge. destruct (ph k c) eqn:E; [|exact E].
+  unfold ph. rewrite im_get_remove_same by exact H. reflexivity.
+Qed.
+
+Lemma NoDup_extend_p l (c : imap item) : NoDup (keys c) -> NoDup (keys (im_extend_p l c)).
+Proof.
+  revert c. induction l as [|[k v] l IH]; simpl; intros c H; [assumption|].
+  apply IH. apply NoDup_insert. apply NoDup_purge. assumption.
+Qed.
+
+Lemma abs_extend_p (n : pay -> pay) l c :
+  NoDup (keys c) ->
+  abs (im_extend_p (map (fun kv => (fst kv, IReal (n (snd kv)))) l) c)
   = fold_left (fun acc kv => om_insert (fst kv) (n (snd kv)) acc) l (abs c).
 Proof.
-  revert c. induction l as [|[k p] l IH]; simpl; intros c H Hp; [reflexivity|].
-  apply orb_false_iff in Hp as [Hk Hl].
-  rewrite IH.
-  - rewrite abs_insert_real by assumption. reflexivity.
-  - apply NoDup_insert. assumption.
-  - (* placeholders of c other than k stay placeholders; k is none no more *)
-    clear IH. induction l as [|[k2 p2] l IHl]; simpl; [reflexivity|].
-    simpl in Hl. apply orb_false_iff in Hl as [H2 Hl]. rewrite (IHl Hl), orb_false_r.
-    clear IHl Hl. unfold ph in *. rewrite im_get_insert.
-    destruct (bytes_eqb k k2); [reflexivity|]. exact H2.
+  revert c. induction l as [|[k p] l IH]; simpl; intros c H; [reflexivity|].
+  rewrite IH by (apply NoDup_insert, NoDup_purge; exact H).
+  rewrite abs_insert_real by (first [apply NoDup_purge; exact H | apply ph_purge; exact H]).
+  rewrite abs_purge. reflexivity.
 Qed.
 (* ==================================================================================== *)
 (** * E. comparators are total preorders; small facts about items *)
@@ -498,11 +530,15 @@ Proof.
   intros [ND NT]. split; [apply NoDup_sort; exact ND|].
   intro Hk. apply (Forall_sort notab); auto.
 Qed.
+Lemma Inv_purge kd k c : Inv kd c -> Inv kd (purge k c).
+Proof. intro HI. unfold purge. destruct (ph k c); [apply Inv_remove|]; exact HI. Qed.
 Lemma Inv_extend kd l c :
-  Inv kd c -> (kd <> KTable -> Forall (fun kv => notab (snd kv)) l) -> Inv kd (im_extend l c).
+  Inv kd c -> (kd <> KTable -> Forall (fun kv => notab (snd kv)) l) -> Inv kd (im_extend_p l c).
 Proof.
-  intros [ND NT] Hl. split; [apply NoDup_extend; exact ND|].
-  intro Hk. apply (Forall_extend notab); auto.
+  revert c. induction l as [|[k v] l IH]; simpl; intros c HI Hl; [exact HI|].
+  apply IH.
+  - apply Inv_insert; [apply Inv_purge; exact HI|]. intro Hn. specialize (Hl Hn). inversion Hl; subst. assumption.
+  - intro Hn. specialize (Hl Hn). inversion Hl; subst. assumption.
 Qed.
 
 Lemma notab_norm kd p : tkind kd -> kd <> KTable -> notab (IReal (norm kd p)).
@@ -601,25 +637,33 @@ Proof.
 Qed.
 
 Lemma extend_sim kd l c :
-  tkind kd -> Inv kd c -> existsb (fun kv => ph (fst kv) c) l = false ->
-  Inv kd (im_extend (map (fun kv : bytes * pay => (fst kv, IReal (norm kd (snd kv)))) l) c) /\
-  abs (im_extend (map (fun kv : bytes * pay => (fst kv, IReal (norm kd (snd kv)))) l) c)
+  tkind kd -> Inv kd c ->
+  Inv kd (im_extend_p (map (fun kv : bytes * pay => (fst kv, IReal (norm kd (snd kv)))) l) c) /\
+  abs (im_extend_p (map (fun kv : bytes * pay => (fst kv, IReal (norm kd (snd kv)))) l) c)
   = fold_left (fun (acc : omap pay) (kv : bytes * pay) => om_insert (fst kv) (norm kd (snd kv)) acc) l (abs c).
 Proof.
-  intros Hk HI Hp. split.
+  intros Hk HI. split.
   - apply Inv_extend; [exact HI|]. intro Hn. apply Forall_forall. intros x Hx.
     apply in_map_iff in Hx as [kv [<- _]]. simpl. apply notab_norm; assumption.
-  - apply (abs_extend (norm kd)); [exact (proj1 HI)|exact Hp].
+  - apply (abs_extend_p (norm kd)). exact (proj1 HI).
 Qed.
 
+(* "this call meets a placeholder under its key": never the case after `prep` *)
+Definition tsens' (kd : mkind) (c : imap item) (o : mop) : bool :=
+  match o with
+  | MIns k _ | MInsF k _ | MEnt k | MEoi k _ | MEins k _ | MErm k | MGoi k _ | MISet k _ | MIoi k _ => ph k c
+  | MRm k | MRmE k => match kd with KTable => ph k c | _ => false end
+  | _ => false
+  end.
 
-Lemma tstep_sim kd c o :
-  tkind kd -> Inv kd c -> tsens kd c o = false -> sim kd (tstep kd c o) (ref_step kd (abs c) o).
+Lemma tbody_sim kd c o :
+  tkind kd -> Inv kd c -> avail kd o = true -> tsens' kd c o = false ->
+  sim kd (tbody kd c o) (ref_step kd (abs c) o).
 Proof.
-  intros Hk HI Hs. pose proof (proj1 HI) as ND.
-  unfold sim, tstep, ref_step. unfold tsens in Hs.
+  intros Hk HI Av Hs. pose proof (proj1 HI) as ND.
+  unfold sim, tbody, ref_step. unfold tsens' in Hs.
   rewrite (ref_insert_t kd Hk), (is_map_kind_t kd Hk).
-  destruct (avail kd o) eqn:Av; cbn [negb andb] in *; [|cbn; auto].
+  rewrite Av; cbn [negb andb] in *.
   destruct o.
   all: try (pose proof (ref_get k c ND) as G; pose proof (ref_mem k c ND) as M).
   all: try (pose proof (L_ins kd c Hk HI k p) as Li).
@@ -636,7 +680,6 @@ Proof.
   all: unfold real in *.
   all: try (solve [split; [first [assumption | apply Inv_nil] | split; [first [assumption | reflexivity] | first [reflexivity | destruct q; reflexivity || congruence]]]]).
   all: rewrite ?abs_length, ?emp_eq, ?abs_length, ?abs_visible.
-  all: try rewrite (anyph_false_visible c Hs).
   all: try rewrite (only_values_visible c) by (apply (proj2 HI); discriminate).
   all: try rewrite (im_insert_same k (IReal q) c Gk).
   all: try rewrite (retain_inline f c) by (apply (proj2 HI); discriminate).
@@ -646,10 +689,33 @@ Proof.
   all: try (solve [destruct (sort_by_table_sim c0 c HI); auto]).
   all: try (solve [destruct (Lt eq_refl); auto]).
   all: match goal with |- Inv ?K _ /\ _ => assert (HK : tkind K) by (unfold tkind; tauto) end.
-  all: try (solve [destruct (extend_sim _ l c HK HI Hs); auto]).
-  all: try (solve [destruct (extend_sim _ l [] HK (Inv_nil _) (existsb_ph_nil l)); auto]).
+  all: try (solve [destruct (extend_sim _ l c HK HI); auto]).
+  all: try (solve [destruct (extend_sim _ l [] HK (Inv_nil _)); auto]).
   all: match goal with |- Inv ?K _ /\ _ => assert (HnK : K <> KTable) by discriminate end.
   all: destruct (sort_by_inline_sim _ c0 c HnK HI); auto.
+Qed.
+
+(* ---- the call with its `remove_placeholder` ---- *)
+Lemma prep_facts kd c o :
+  Inv kd c -> Inv kd (prep kd o c) /\ abs (prep kd o c) = abs c /\ tsens' kd (prep kd o c) o = false.
+Proof.
+  intro HI. pose proof (proj1 HI) as ND.
+  assert (P : forall k, Inv kd (purge k c) /\ abs (purge k c) = abs c /\ ph k (purge k c) = false).
+  { intro k. split; [apply Inv_purge; exact HI|]. split; [apply abs_purge|apply ph_purge; exact ND]. }
+  destruct o; cbn [prep tsens']; try (split; [exact HI|split; reflexivity]); try apply P.
+  - destruct kd; first [apply P | (split; [exact HI|split; reflexivity])].
+  - destruct kd; first [apply P | (split; [exact HI|split; reflexivity])].
+  - (* &mut c[k]: purged, and not a sensitive call *)
+    destruct (P k) as [P1 [P2 _]]. auto.
+Qed.
+
+Lemma tstep_sim kd c o :
+  tkind kd -> Inv kd c -> sim kd (tstep kd c o) (ref_step kd (abs c) o).
+Proof.
+  intros Hk HI. unfold tstep. destruct (avail kd o) eqn:Av; cbn [negb].
+  - destruct (prep_facts kd c o HI) as [HI' [Ha Hs]]. rewrite <- Ha.
+    apply tbody_sim; assumption.
+  - unfold sim, ref_step. rewrite Av. cbn. auto.
 Qed.
 
 (* ---- the final observation ---- *)
@@ -699,59 +765,38 @@ Lemma run_cons {S O R} (step : S -> O -> S * R) s o h :
   run step s (o :: h) = (fst (run step (fst (step s o)) h), snd (step s o) :: snd (run step (fst (step s o)) h)).
 Proof. simpl. destruct (step s o) as [s1 r]. simpl. destruct (run step s1 h) as [s2 rs]. reflexivity. Qed.
 
-Lemma trun_sim kd : tkind kd -> forall h c, Inv kd c -> first_sens kd c h = None ->
+Lemma trun_sim kd : tkind kd -> forall h c, Inv kd c ->
   Inv kd (fst (run (tstep kd) c h)) /\
   abs (fst (run (tstep kd) c h)) = fst (run (ref_step kd) (abs c) h) /\
   snd (run (tstep kd) c h) = snd (run (ref_step kd) (abs c) h).
 Proof.
-  intros Hk. induction h as [|o h IH]; intros c HI Hf.
+  intros Hk. induction h as [|o h IH]; intros c HI.
   - simpl. split; [exact HI|]. split; reflexivity.
-  - cbn [first_sens] in Hf. destruct (tsens kd c o) eqn:Hs; [discriminate|].
-    destruct (tstep_sim kd c o Hk HI Hs) as [HI1 [Ha Ho]].
+  - destruct (tstep_sim kd c o Hk HI) as [HI1 [Ha Ho]].
     rewrite !run_cons. cbn [fst snd].
-    destruct (IH _ HI1 Hf) as [HI2 [Ha2 Ho2]].
+    destruct (IH _ HI1) as [HI2 [Ha2 Ho2]].
     rewrite Ha in Ha2, Ho2. split; [exact HI2|]. split; [exact Ha2|]. congruence.
 Qed.
 
+(* EVERY history: what each call returns and what the container shows afterwards are those of
+   the plain reference ordered map *)
 Theorem table_like_refines kd h :
-  tkind kd -> touches_placeholder kd h = false ->
+  tkind kd ->
   snd (run (tstep kd) [] h) = snd (run (ref_step kd) [] h) /\
   forall ks, tobserve kd ks (fst (run (tstep kd) [] h)) = ref_observe kd ks (fst (run (ref_step kd) [] h)).
 Proof.
-  intros Hk Ht. unfold touches_placeholder in Ht.
-  destruct (first_sens kd [] h) eqn:Hf; [discriminate|].
-  destruct (trun_sim kd Hk h [] (Inv_nil kd) Hf) as [HI [Ha Ho]].
+  intros Hk.
+  destruct (trun_sim kd Hk h [] (Inv_nil kd)) as [HI [Ha Ho]].
   split; [exact Ho|]. intro ks. change (@nil (bytes * pay)) with (abs []). rewrite <- Ha.
   apply tobserve_sim; assumption.
 Qed.
-(* ---- invariants hold in every reachable state, sensitive calls included ---- *)
-Lemma Inv_extend_norm kd l c :
-  tkind kd -> Inv kd c ->
-  Inv kd (im_extend (map (fun kv : bytes * pay => (fst kv, IReal (norm kd (snd kv)))) l) c).
-Proof.
-  intros Hk HI. apply Inv_extend; [exact HI|]. intro Hn. apply Forall_forall. intros x Hx.
-  apply in_map_iff in Hx as [kv [<- _]]. simpl. apply notab_norm; assumption.
-Qed.
 
+(* ---- invariants hold in every reachable state ---- *)
 Lemma tstep_inv kd c o : tkind kd -> Inv kd c -> Inv kd (fst (tstep kd c o)).
-Proof.
-  intros Hk HI. unfold tstep. destruct (avail kd o); cbn [negb]; [|exact HI].
-  assert (Hn : forall p, kd <> KTable -> notab (IReal (norm kd p))) by (intros; apply notab_norm; assumption).
-  pose proof (fun l => Inv_extend_norm kd l c Hk HI) as He.
-  pose proof (fun l => Inv_extend_norm kd l [] Hk (Inv_nil kd)) as Hf.
-  destruct o; cbn [fst].
-  all: try (destruct (im_get k c) as [[|q]|]).
-  all: destruct Hk as [->|[->| ->]]; cbn [fst].
-  all: try (destruct (is_none _)); cbn [fst].
-  all: auto using Inv_insert, Inv_remove, Inv_retain, Inv_sort, Inv_nil, hack_notab, notab_none.
-  all: try (apply Inv_insert; [exact HI|intros _; first [apply hack_notab | apply notab_none | apply Hn; discriminate]]).
-Qed.
+Proof. intros Hk HI. exact (proj1 (tstep_sim kd c o Hk HI)). Qed.
 
 Lemma trun_inv kd : tkind kd -> forall h c, Inv kd c -> Inv kd (fst (run (tstep kd) c h)).
-Proof.
-  intros Hk. induction h as [|o h IH]; intros c HI; [exact HI|].
-  rewrite run_cons. cbn [fst]. apply IH. apply tstep_inv; assumption.
-Qed.
+Proof. intros Hk h c HI. exact (proj1 (trun_sim kd Hk h c HI)). Qed.
 
 (* the read accessors in ANY reachable state show exactly the real entries *)
 Theorem table_like_view kd h ks :
@@ -1036,26 +1081,16 @@ Proof.
 Qed.
 
 (* ==================================================================================== *)
-(** * I. read calls never see a placeholder; witnesses for the placeholder class *)
+(** * I. no call sees a placeholder; the former witnesses of the placeholder class *)
 
-Definition is_read (o : mop) : bool :=
-  match o with
-  | MGet _ | MGetM _ | MGkv _ | MGkvM _ | MCk _ | MCt _ | MCv _ | MCa _ | MLen | MEmp | MIter | MIterM | MIdx _ => true
-  | _ => false
-  end.
-
-Lemma read_not_sensitive kd c o : is_read o = true -> tsens kd c o = false.
-Proof.
-  unfold tsens. destruct (avail kd o); [|reflexivity]. destruct o; simpl; try discriminate; intros _; destruct kd; reflexivity.
-Qed.
-
-Theorem reads_blind kd h o :
-  tkind kd -> is_read o = true ->
+(* in any reachable state EVERY call (not only the read accessors) answers like the reference map *)
+Theorem calls_blind kd h o :
+  tkind kd ->
   snd (tstep kd (fst (run (tstep kd) [] h)) o) = snd (ref_step kd (abs (fst (run (tstep kd) [] h))) o).
 Proof.
-  intros Hk Hr.
+  intros Hk.
   pose proof (trun_inv kd Hk h [] (Inv_nil kd)) as HI.
-  destruct (tstep_sim kd _ o Hk HI (read_not_sensitive kd _ o Hr)) as [_ [_ Ho]]. exact Ho.
+  destruct (tstep_sim kd _ o Hk HI) as [_ [_ Ho]]. exact Ho.
 Qed.
 
 Theorem placeholders_invisible_reachable kd h ks :
@@ -1069,33 +1104,33 @@ Qed.
 Definition ka : bytes := ["a"%byte].
 Definition kb : bytes := ["b"%byte].
 
-(* Table: `let _ = &mut t["a"]; t.insert("a", 1)` returns Some(Item::None), a plain map returns None *)
+(* the histories on which the containers were NOT plain ordered maps before the repair
+   (finding C16-placeholder-residue), kept as regression examples *)
+(* Table: `let _ = &mut t["a"]; t.insert("a", 1)` returned Some(Item::None) *)
 Definition w_table_insert : list mop := [MIdxM ka; MIns ka (PInt 1)].
-(* Table: `let _ = &mut t["a"]; t.entry("a").or_insert(1)` returns the none item and stores nothing *)
+(* Table: `let _ = &mut t["a"]; t.entry("a").or_insert(1)` returned the none item and stored nothing *)
 Definition w_table_or_insert : list mop := [MIdxM ka; MEoi ka (PInt 1); MLen].
-(* Table: a placeholder reserves a position: a, b instead of b, a *)
+(* Table: a placeholder reserved a position: a, b instead of b, a *)
 Definition w_table_order : list mop := [MIdxM ka; MISet kb (PInt 1); MISet ka (PInt 2); MIter].
-(* InlineTable: `entry("a")` on a placeholder turns it into `{}` even if the entry is dropped *)
+(* InlineTable: `entry("a")` on a placeholder turned it into `{}` *)
 Definition w_inline_entry : list mop := [MIdxM ka; MEnt ka; MLen].
-(* InlineTable: `get_or_insert("a", 1)` on a placeholder panics *)
+(* InlineTable: `get_or_insert("a", 1)` on a placeholder panicked *)
 Definition w_inline_goi : list mop := [MIdxM ka; MGoi ka (PInt 1)].
-(* TableLike for InlineTable: entry("a") is Occupied(Item::None), or_insert stores nothing *)
+(* TableLike for InlineTable: entry("a") was Occupied(Item::None), or_insert stored nothing *)
 Definition w_tl_entry : list mop := [MIdxM ka; MEoi ka (PInt 1); MLen].
 
-Definition differs (kd : mkind) (h : list mop) : Prop :=
-  touches_placeholder kd h = true /\
-  snd (run (tstep kd) [] h) <> snd (run (ref_step kd) [] h).
+Definition agrees (kd : mkind) (h : list mop) : Prop :=
+  snd (run (tstep kd) [] h) = snd (run (ref_step kd) [] h).
 
-Lemma w_table_insert_differs : differs KTable w_table_insert.
-Proof. split; [reflexivity|]. vm_compute. congruence. Qed.
-Lemma w_table_or_insert_differs : differs KTable w_table_or_insert.
-Proof. split; [reflexivity|]. vm_compute. congruence. Qed.
-Lemma w_table_order_differs : differs KTable w_table_order.
-Proof. split; [reflexivity|]. vm_compute. congruence. Qed.
-Lemma w_inline_entry_differs : differs KInline w_inline_entry.
-Proof. split; [reflexivity|]. vm_compute. congruence. Qed.
-Lemma w_inline_goi_differs : differs KInline w_inline_goi.
-Proof. split; [reflexivity|]. vm_compute. congruence. Qed.
-Lemma w_tl_entry_differs : differs KInlineTL w_tl_entry.
-Proof. split; [reflexivity|]. vm_compute. congruence. Qed.
-
+Lemma w_table_insert_agrees : agrees KTable w_table_insert.
+Proof. vm_compute. reflexivity. Qed.
+Lemma w_table_or_insert_agrees : agrees KTable w_table_or_insert.
+Proof. vm_compute. reflexivity. Qed.
+Lemma w_table_order_agrees : agrees KTable w_table_order.
+Proof. vm_compute. reflexivity. Qed.
+Lemma w_inline_entry_agrees : agrees KInline w_inline_entry.
+Proof. vm_compute. reflexivity. Qed.
+Lemma w_inline_goi_agrees : agrees KInline w_inline_goi.
+Proof. vm_compute. reflexivity. Qed.
+Lemma w_tl_entry_agrees : agrees KInlineTL w_tl_entry.
+Proof. vm_compute. reflexivity. Qed.
